@@ -23,6 +23,7 @@ inductive Err where
   | inconsistentLengths      -- 'Inconsistent scan lengths' / 'Inconsistent batch axis sizes'
   | lengthUnspecified        -- 'length should be specified manually' / 'axis_size should be specified manually'
   | leadingAxisMismatch      -- lax.scan / jax.vmap: mapped leaves disagree on the mapped size (ValueError)
+  | noScanValues             -- lax.scan / jax.vmap: nothing to map over and no length / axis_size given (ValueError)
   | carryStructure           -- lax.scan: carry in / carry out differ in structure or shape (TypeError)
   | broadcastDependency      -- 'broadcasted variable has a data dependency on the scan body'
   | unbatchedOutExpected     -- jax.vmap: out_axes None for a batched output (ValueError)
@@ -39,6 +40,7 @@ def Err.cls : Err → String
   | .inconsistentLengths => "ValueError"
   | .lengthUnspecified => "ValueError"
   | .leadingAxisMismatch => "ValueError"
+  | .noScanValues => "ValueError"
   | .carryStructure => "TypeError"
   | .broadcastDependency => "ValueError"
   | .unbatchedOutExpected => "ValueError"
@@ -391,7 +393,7 @@ def jaxLength (explicit : Option Nat) (dims : List Nat) : Except Err Nat :=
   | some n => if dims.all (fun d => decide (d = n)) then .ok n else .error .leadingAxisMismatch
   | none =>
     match dims with
-    | [] => .error .lengthUnspecified
+    | [] => .error .noScanValues
     | d :: ds => if ds.all (fun d' => decide (d' = d)) then .ok d else .error .leadingAxisMismatch
 
 
